@@ -265,7 +265,7 @@ def check_C13(chk, tier, seed):
                        "timeouts: 2.5 s to connect, 2.5 s for the answer, on loopback"]
 
 
-FAULTS = ["announce-leave", "malformed", "oversized", "zero-length", "stall-midframe", "stall-setup", "garbage-setup", "reset", "reset-midframe", "handler-panic", "handler-panic-sync", "handler-panic-fmt", "handler-panic-unwrap", "vanish-before-answer", "deep-nesting", "vendor-zero", "nest-30", "announce-stall", "exact-1mib", "reset-same-port"]
+FAULTS = ["announce-leave", "malformed", "oversized", "zero-length", "stall-midframe", "stall-setup", "garbage-setup", "reset", "reset-midframe", "handler-panic", "handler-panic-sync", "handler-panic-fmt", "handler-panic-unwrap", "vanish-before-answer", "deep-nesting", "vendor-zero", "nest-30", "announce-stall", "exact-1mib", "reset-same-port", "unread-then-malformed"]
 
 
 def check_C10(chk, tier, seed):
@@ -303,6 +303,9 @@ def check_C10(chk, tier, seed):
     # thread keeps while decoding must be given back when a decode fails - afterwards requests carrying Grouped AVPs are served
     for tls in (0, 1):
         cases.append(f"NET {tls} 3 4 {hx(rng.below(1 << 32))} 16 " + " ".join(["deep-nesting", "malformed"] * 8))
+    # more peers than the runtime has worker threads, each leaving answers unread behind a closed receive window and then sending a
+    # malformed frame: giving such a connection up must not occupy a thread (a close that waits for the queued answers to drain)
+    cases.append(f"NET 0 4 3 {hx(rng.below(1 << 32))} 12 " + " ".join(["unread-then-malformed"] * 12))
     n = 12 if tier == "quick" else 400
     for k in range(n):
         r = rng.fork(f"n{k}")
